@@ -491,6 +491,11 @@ func collectLoopEffects(info *types.Info, body []ast.Stmt) *loopEffects {
 				walkList(cc.(*ast.CaseClause).Body, true)
 			}
 		case *ast.DeclStmt:
+		case *ast.IncDecStmt:
+			// a running index / counter local to the function
+			if id, ok := x.X.(*ast.Ident); !ok || objOf(info, id) == nil {
+				le.other++
+			}
 		case *ast.ExprStmt:
 			if ce, ok := x.X.(*ast.CallExpr); ok {
 				le.calls = append(le.calls, ce)
@@ -508,6 +513,14 @@ func collectLoopEffects(info *types.Info, body []ast.Stmt) *loopEffects {
 						le.mapInsert++
 						le.guarded = le.guarded || cond
 						return
+					}
+					// dst[next] = v with a running index: the same collection as an append
+					if _, isSlice := info.TypeOf(ix.X).Underlying().(*types.Slice); isSlice {
+						if dst := objOf(info, ix.X); dst != nil {
+							le.appendTo[dst]++
+							le.guarded = le.guarded || cond
+							return
+						}
 					}
 				}
 				if ce, ok := x.Rhs[0].(*ast.CallExpr); ok {
@@ -726,19 +739,38 @@ func valuationString(v gen.Valuation) string {
 // rejectFormula lifts validateOptions: the disjunction of the conditions
 // under which it returns a non-nil error.
 func rejectFormula(g *gen.Generator) ([]gen.Formula, error) {
-	var fd *ast.FuncDecl
-	for _, f := range g.Pkg.Syntax {
-		for _, d := range f.Decls {
-			if x, ok := d.(*ast.FuncDecl); ok && x.Name.Name == "validateOptions" {
-				fd = x
-			}
-		}
-	}
+	fd := g.FuncDecl("validateOptions")
 	if fd == nil {
 		return nil, fmt.Errorf("validateOptions not found")
 	}
+	return rejectOfBody(g, fd.Body.List, 0)
+}
+
+// rejectOfBody lifts a validator body - guard clauses returning an error, a
+// tagless switch of such cases, delegation to other validators of the package
+// (`if err := v(m); err != nil { return err }`, `return v(m)`), a final
+// `return nil` - into the list of conditions under which it rejects.
+func rejectOfBody(g *gen.Generator, list []ast.Stmt, depth int) ([]gen.Formula, error) {
+	if depth > 4 {
+		return nil, fmt.Errorf("validators nested too deeply")
+	}
+	validatorOf := func(e ast.Expr) *ast.FuncDecl {
+		ce, ok := ast.Unparen(e).(*ast.CallExpr)
+		if !ok || len(ce.Args) != 1 {
+			return nil
+		}
+		id, ok := ce.Fun.(*ast.Ident)
+		if !ok {
+			return nil
+		}
+		fd := g.FuncDecl(id.Name)
+		if fd == nil || fd.Type.Results == nil || len(fd.Type.Results.List) != 1 || types.ExprString(fd.Type.Results.List[0].Type) != "error" {
+			return nil
+		}
+		return fd
+	}
 	var out []gen.Formula
-	for _, st := range fd.Body.List {
+	for _, st := range list {
 		switch x := st.(type) {
 		case *ast.SwitchStmt:
 			if x.Tag != nil || x.Init != nil {
@@ -758,7 +790,18 @@ func rejectFormula(g *gen.Generator) ([]gen.Formula, error) {
 				}
 			}
 		case *ast.IfStmt:
-			if x.Else != nil || x.Init != nil || !returnsError(x.Body.List) {
+			// delegation: if err := v(m); err != nil { return err }
+			if as, ok := x.Init.(*ast.AssignStmt); ok && x.Else == nil && len(as.Lhs) == 1 && len(as.Rhs) == 1 {
+				if fd := validatorOf(as.Rhs[0]); fd != nil && types.ExprString(x.Cond) == types.ExprString(as.Lhs[0])+" != nil" && returnsError(x.Body.List) {
+					sub, err := rejectOfBody(g, fd.Body.List, depth+1)
+					if err != nil {
+						return nil, err
+					}
+					out = append(out, sub...)
+					continue
+				}
+			}
+			if x.Init != nil || !returnsError(x.Body.List) {
 				return nil, fmt.Errorf("validateOptions: unsupported if form")
 			}
 			f, err := g.ParseFormula(x.Cond)
@@ -766,7 +809,31 @@ func rejectFormula(g *gen.Generator) ([]gen.Formula, error) {
 				return nil, err
 			}
 			out = append(out, f)
+			if x.Else != nil {
+				// else-if chain of further guards
+				rest, err := rejectOfBody(g, []ast.Stmt{x.Else}, depth)
+				if err != nil {
+					return nil, err
+				}
+				out = append(out, rest...)
+			}
+		case *ast.BlockStmt:
+			rest, err := rejectOfBody(g, x.List, depth)
+			if err != nil {
+				return nil, err
+			}
+			out = append(out, rest...)
 		case *ast.ReturnStmt:
+			if len(x.Results) == 1 {
+				if fd := validatorOf(x.Results[0]); fd != nil {
+					sub, err := rejectOfBody(g, fd.Body.List, depth+1)
+					if err != nil {
+						return nil, err
+					}
+					out = append(out, sub...)
+					continue
+				}
+			}
 			if len(x.Results) != 1 || types.ExprString(x.Results[0]) != "nil" {
 				return nil, fmt.Errorf("validateOptions: final return is not nil")
 			}
@@ -1524,23 +1591,108 @@ func c16Y6(l *core.Ledger, g *gen.Generator) {
 			return ok && len(r.Results) == 1 && types.ExprString(r.Results[0]) == "true"
 		})
 	}
-	ast.Inspect(guard.Body, func(nd ast.Node) bool {
-		outer, ok := nd.(*ast.RangeStmt)
-		if !ok || !strings.HasSuffix(types.ExprString(outer.X), ".Messages") {
-			return true
-		}
-		// comparison of the message name with every reserved element, fatal on equality
-		if innerMatch(outer.Body, func(ifs *ast.IfStmt) bool { return callsFatal(info, ifs.Body) }) {
-			okLoop = true
-		}
-		// or: a membership predicate over reservedIdents guards the fatal call
-		ast.Inspect(outer.Body, func(m ast.Node) bool {
-			ifs, ok := m.(*ast.IfStmt)
-			if ok && isMembership(ifs.Cond) && callsFatal(info, ifs.Body) {
-				okLoop = true
+	// reservedSets: local maps of a function filled from reservedIdents (set[id] = ...)
+	reservedSets := func(fd *ast.FuncDecl) map[types.Object]bool {
+		out := map[types.Object]bool{}
+		ast.Inspect(fd.Body, func(nd ast.Node) bool {
+			rs, ok := nd.(*ast.RangeStmt)
+			if !ok || types.ExprString(rs.X) != "reservedIdents" || rs.Value == nil {
+				return true
+			}
+			for _, st := range rs.Body.List {
+				as, ok := st.(*ast.AssignStmt)
+				if !ok || len(as.Lhs) != 1 {
+					continue
+				}
+				ix, ok := as.Lhs[0].(*ast.IndexExpr)
+				if ok && objOf(info, ix.Index) == objOf(info, rs.Value) {
+					if o := objOf(info, ix.X); o != nil {
+						out[o] = true
+					}
+				}
 			}
 			return true
 		})
+		return out
+	}
+	// isReservedTest: cond is true exactly when some name is a reserved identifier
+	isReservedTest := func(fd *ast.FuncDecl, cond ast.Expr, init ast.Stmt) bool {
+		if isMembership(cond) {
+			return true
+		}
+		sets := reservedSets(fd)
+		if ix, ok := ast.Unparen(cond).(*ast.IndexExpr); ok && sets[objOf(info, ix.X)] {
+			return true
+		}
+		if as, ok := init.(*ast.AssignStmt); ok && len(as.Lhs) == 2 && len(as.Rhs) == 1 {
+			if ix, ok := as.Rhs[0].(*ast.IndexExpr); ok && sets[objOf(info, ix.X)] && objOf(info, cond) == objOf(info, as.Lhs[1]) {
+				return true
+			}
+		}
+		return false
+	}
+	// scansMessages: fd ranges over `over` and does `then` for a message whose name is reserved
+	scansMessages := func(fd *ast.FuncDecl, over func(ast.Expr) bool, then func(*ast.IfStmt) bool) bool {
+		hit := false
+		ast.Inspect(fd.Body, func(nd ast.Node) bool {
+			outer, ok := nd.(*ast.RangeStmt)
+			if !ok || !over(outer.X) {
+				return true
+			}
+			if innerMatch(outer.Body, then) {
+				hit = true
+			}
+			ast.Inspect(outer.Body, func(m ast.Node) bool {
+				if ifs, ok := m.(*ast.IfStmt); ok && isReservedTest(fd, ifs.Cond, ifs.Init) && then(ifs) {
+					hit = true
+				}
+				return true
+			})
+			return true
+		})
+		return hit
+	}
+	isMessages := func(e ast.Expr) bool { return strings.HasSuffix(types.ExprString(e), ".Messages") }
+	if scansMessages(guard, isMessages, func(ifs *ast.IfStmt) bool { return callsFatal(info, ifs.Body) }) {
+		okLoop = true
+	}
+	// or: a helper scans the message list and reports a hit, which is fatal here
+	ast.Inspect(guard.Body, func(nd ast.Node) bool {
+		ifs, ok := nd.(*ast.IfStmt)
+		if !ok || !callsFatal(info, ifs.Body) {
+			return true
+		}
+		as, ok := ifs.Init.(*ast.AssignStmt)
+		if !ok || len(as.Rhs) != 1 || len(as.Lhs) == 0 || objOf(info, ifs.Cond) != objOf(info, as.Lhs[len(as.Lhs)-1]) {
+			return true
+		}
+		ce, ok := as.Rhs[0].(*ast.CallExpr)
+		if !ok || len(ce.Args) != 1 || !isMessages(ce.Args[0]) {
+			return true
+		}
+		id, ok := ce.Fun.(*ast.Ident)
+		if !ok {
+			return true
+		}
+		h := g.FuncDecl(id.Name)
+		if h == nil || h.Type.Params.NumFields() != 1 || len(h.Type.Params.List[0].Names) != 1 || len(h.Body.List) == 0 {
+			return true
+		}
+		param := objOf(info, h.Type.Params.List[0].Names[0])
+		lastRet, ok := h.Body.List[len(h.Body.List)-1].(*ast.ReturnStmt)
+		if !ok || len(lastRet.Results) == 0 || types.ExprString(lastRet.Results[len(lastRet.Results)-1]) != "false" {
+			return true
+		}
+		reportsHit := func(i *ast.IfStmt) bool {
+			if len(i.Body.List) == 0 {
+				return false
+			}
+			r, ok := i.Body.List[len(i.Body.List)-1].(*ast.ReturnStmt)
+			return ok && len(r.Results) > 0 && types.ExprString(r.Results[len(r.Results)-1]) == "true"
+		}
+		if scansMessages(h, func(e ast.Expr) bool { return objOf(info, e) == param }, reportsHit) {
+			okLoop = true
+		}
 		return true
 	})
 	l.Check(okLoop, "C16-Y6", "gengorums.gorumsGuard/loop", guard.Pos(), "every message name is compared with every reserved name; a match is fatal", "gorumsGuard does not compare every top-level message name with every reserved identifier and stop with a diagnostic on a match")
